@@ -77,6 +77,17 @@ def mkobj(repo, qualname, **fields):
     return Obj(cls, dict(fields))
 
 
+def mkobj_init(ip, repo, qualname, args=(), kwargs=None, **overrides):
+    """object built by the REAL constructor (so fields added by a harmless refactoring are
+    present), then put into the symbolic state of the scenario by overriding fields"""
+    cls = repo.resolve(qualname)
+    if cls is None:
+        raise Unsupported('contract target missing: class %s' % qualname)
+    o = ip.call(cls, list(args), dict(kwargs or {}))
+    o.fields.update(overrides)
+    return o
+
+
 def frac(x):
     """decode json model value into a python Fraction-compatible pair"""
     return x
